@@ -55,6 +55,16 @@ CLAIMED.update({
  'C13': cnd('For every generated combination of the listing filters (name, uuid, in_tree, member_of incl. repeated / in: / ! / !in:, required incl. in: and !, resources) in every generated state the returned uuid set must equal ListProviders(s, f); unknown traits / classes 400.', '7.13'),
  'C20': cnd('For queries with a non-empty unlimited result: every limit 1..M+1 under both settings of randomize_allocation_candidates and several seeds; TLC checks count = min(N, M), distinctness, subset of the unlimited result, summaries, and - randomisation off - that repetition returns the identical ordered list.', '7.20'),
 })
+SURF_NOTE = ('Trusted base: TLC, pv/surface.py (probe requests and presence predicates), the transcription of the documentation into spec/Surface.tla, noauth2 in place of keystone. '
+             'The enumeration of the finite tables is complete; it is plain enumeration by the harness with TLC as the oracle, which is why the level is exploration (exhaustive), not model checking.')
+CLAIMED.update({
+ 'C14': dict(engine='surface', category='exploration', design_ref='7.14', note=SURF_NOTE,
+             technique='complete enumeration of the (route, method, version) and (feature, version) tables on the real service, each observation judged by TLC against spec/Surface.tla whose structural laws TLC checks (TraceSurface.tla)',
+             text='Exhaustive: every route and method of the routing table (plus unknown paths and undeclared methods) at all 40 microversions, latest, no header and out-of-range versions: expected disposition 404 / 405 / 406 / handled and the openstack-api-version and Vary headers; each of 48 versioned features (request fields, query parameters, response keys, statuses, headers) probed at all 40 versions must be present exactly in its documented window.'),
+ 'C16': dict(engine='surface', category='exploration', design_ref='7.16', note=SURF_NOTE,
+             technique='complete enumeration of (operation, caller class, single-rule override) on the real service with table dumps around every probe, judged by TLC against the policy table of spec/Surface.tla (TraceSurface.tla)',
+             text='Exhaustive over the routing table x 7 caller classes (no credentials, no roles, reader of own / other project, member, admin, service) under the default policy and under every single-rule override to everyone / nobody: 401 without credentials, 403 for a caller the rule excludes (unless the request is 404/405/406/415 for every caller), never a success, no state change, no stored identifier in the body; allowed callers are never answered 401/403.'),
+})
 NOT_CLAIMED = {}
 ENGINES = [
  {'name': 'seq', 'path': 'pv/seqengine.py', 'serves_properties': ['C01', 'C04', 'C08', 'C09', 'C10', 'C11', 'C12', 'C19'],
@@ -66,4 +76,6 @@ ENGINES.append({'name': 'fault', 'path': 'pv/faults.py', 'serves_properties': ['
   'kind_free_text': 'statement-level fault / crash injection through SQLAlchemy engine events; spec/TraceFault.tla judges each outcome with API!Apply; spec/Tx.tla Crash/Fault actions (TxSingle.cfg)'})
 ENGINES.append({'name': 'cand', 'path': 'pv/cand.py', 'serves_properties': ['C02', 'C03', 'C13', 'C20'],
   'kind_free_text': 'spec/Candidates.tla declarative reference; spec/TraceCand.tla (TLC judges recorded responses); spec/MC_Cand.tla (TLC, reference vs API!Apply); claim replay of returned candidates'})
+ENGINES.append({'name': 'surface', 'path': 'pv/surface.py', 'serves_properties': ['C14', 'C16'],
+  'kind_free_text': 'spec/Surface.tla (version windows, feature windows, policy table + laws); exhaustive probing of the real service; spec/TraceSurface.tla (TLC judges every probe)'})
 NOTES = 'See DESIGN.md. ./check <id> --tier quick|thorough [--seed N] [--replay FILE]; exit 2 = machinery failure.'
